@@ -41,7 +41,7 @@ RULE = ("part A: structure kind (ortho/hex/hex60/monoclinic/fcc-primitive/tricli
 CLAUSES = ["atoms-unchanged-after-return", "atoms-unchanged-after-exception", "receiver-unchanged:returns-new",
            "receiver-unchanged:raised", "receiver-unchanged:other-return"]
 QUICK = dict(n=60, time=25)
-THOROUGH = dict(n=2500, time=360, shards=16)
+THOROUGH = dict(n=5270, time=480, shards=16)
 
 ATOM_OPS = ["orthogonalize_cell", "orthogonalize_cell", "orthogonalize_cell", "standardize_cell", "helper", "helper", "potential",
             "potential", "frozen_phonons", "frozen_phonons", "atoms_ensemble", "atoms_ensemble", "structure_factor", "bloch_waves",
